@@ -670,6 +670,37 @@ CLAIMS["C04"]["note"] += (
     "Advance per token whenever the model's call budget did not run out; that it never does is observed, not proved). Found by this work and "
     "fixed (76b89dc in the worker's repo): parser panic at entry assertions / unreachable!() when a look takes the last unit of fuel "
     "(match with 250 prefix operators in the scrutinee).")
+CLAIMS["C03"]["text"] += (
+    " Round 11 — type soundness of the reference semantics: Model/ValTy.lean types the VALUES of Sem (valTy: scalars by width, "
+    "tuples, enum / struct values by type name and the field types of the definition at the type arguments; envTy with a "
+    "substitution theta for the type parameters of the running generic function) and Props/C03.lean proves "
+    "sem_preserves_types_partial (in a program whose functions all satisfy Wt.wtFn and lie in the decidable fragment ValTy.okE, "
+    "for every fuel, environment of well-typed values and instantiation theta: a value returned by Sem.eval for an expression "
+    "annotated tau inhabits theta(tau)), sem_preserves_types_apply_partial (calls of top-level functions at any instantiation) and "
+    "traitcall_static_dispatch (whenever theta makes the receiver annotation of an ETraitCall concrete, the runtime key Sem "
+    "dispatches on is the key of that type, and Sem applies the dispatch row of the STATIC key). Fragment: literals, local "
+    "variables, let, if, while, operators, tuples / projections, constructors, struct field reads, enum field reads under the arm "
+    "that tested the variant, match as Core has it, direct calls of (generic) program functions and of the printing builtins, "
+    "trait calls on concretely annotated receivers. gomlmodel tsound evaluates the hypothesis (sigClosedB && okProg) on every real "
+    "Core dump of the C01 streams and, independently of the fragment, restores dynamic dispatch in the REAL Mono dump (every "
+    "direct call of an implementation mono.rs chose statically must find the same function by the key of the runtime receiver) "
+    "and compares the Sem outcomes.")
+CLAIMS["C03"]["note"] += (
+    " Round 11 — proved: the three theorems above (axioms propext, Classical.choice, Quot.sound). Four places where Wt alone was "
+    "too weak became decidable conjuncts of the fragment (enum field read without the variant fact; struct N vs enum N; dispatch "
+    "row vs implementing function; wildcard-compatible vs exact callee instance). Not proved: closures / function values, Ref / Vec / "
+    "arrays (store typing), trait objects, go, trait calls on receivers of parametric type inside the fragment, progress. Validated "
+    "only: the static-dispatch oracle on programs outside the fragment. In real Core dumps the typer has already resolved every "
+    "trait-method call on a concrete receiver to a direct call; every ETraitCall left has a receiver of parametric type.")
+CLAIMS["C07"]["note"] += (
+    " Round 11: traitcall_static_dispatch (Props/C03.lean) proves, on the fragment of sem_preserves_types_partial, the typing "
+    "invariant traitcall_commutes assumes (runtime key = key of the instantiated static type); ./check C07 also runs the "
+    "static-dispatch oracle of tools/props/tsound.py on the real Mono dumps (dynamic dispatch restored, same Sem outcome).")
+CLAIMS["C01"]["note"] += (
+    " Round 11: the Core -> Mono link of pipeline_preserves still excludes ETraitCall (InPipeFragment unchanged: the lock-step "
+    "simulation cannot absorb the one unit of fuel a trait call differs from the direct call mono emits, and the type-soundness "
+    "fragment has no closures yet); what is new is the proved typing invariant (traitcall_static_dispatch) and the per-program "
+    "static-dispatch oracle on the real Mono dumps (coverage.type_soundness_and_static_dispatch).")
 
 
 def main():
